@@ -473,7 +473,10 @@ func flow3(c *Ctx) {
 				if mc, ok := x.Call.Value.(*ssa.MakeClosure); ok {
 					return &walkEvent{"defer", []ssa.Value{mc}}, false, ""
 				}
-				return nil, false, "defers something other than a closure"
+				if f := x.Call.StaticCallee(); f != nil && f.Pkg == fn.Pkg {
+					return &walkEvent{"defer", nil}, false, ""
+				}
+				return nil, false, "defers something other than a closure or a function of the package"
 			case *ssa.Call:
 				if _, isB := x.Call.Value.(*ssa.Builtin); isB {
 					return nil, false, ""
@@ -503,12 +506,16 @@ func flow3(c *Ctx) {
 		}
 		c.Check(g == want, key, fn.Pos(), g, fmt.Sprintf("behaves as %q, expected %q", g, want))
 	}
-	// the deferred closure
+	// the deferred function: a closure capturing s and p, or a function/method given them as arguments
 	var clo *ssa.Function
+	var dArgs []ssa.Value // arguments of a deferred non-closure (receiver first)
 	ir.Instrs(fn, func(in ssa.Instruction) {
 		if d, ok := in.(*ssa.Defer); ok {
 			if mc, isMC := d.Call.Value.(*ssa.MakeClosure); isMC {
 				clo, _ = mc.Fn.(*ssa.Function)
+			} else if f := d.Call.StaticCallee(); f != nil {
+				clo = f
+				dArgs = d.Call.Args
 			}
 		}
 	})
@@ -524,18 +531,33 @@ func flow3(c *Ctx) {
 		}
 	}
 	if rec == nil {
-		c.Bad(Q(fn)+":deferred", clo.Pos(), "the deferred closure does not call recover()")
+		c.Bad(Q(fn)+":deferred", clo.Pos(), "the deferred function does not call recover() itself")
 		return
+	}
+	pParam := fn.Params[1]
+	// which values of the deferred function stand for s and p
+	standsFor := func(v ssa.Value, cell *ssa.Alloc, param *ssa.Parameter) bool {
+		if ld, isLd := v.(*ssa.UnOp); isLd && ld.Op == token.MUL && cell != nil && ir.CellAlloc(ld.X) == cell {
+			return true
+		}
+		if prm, isP := v.(*ssa.Parameter); isP && prm.Parent() == clo {
+			for i, dp := range clo.Params {
+				if dp == prm && i < len(dArgs) {
+					a := dArgs[i]
+					if a == ssa.Value(param) {
+						return true
+					}
+					if ld, isLd := a.(*ssa.UnOp); isLd && cell != nil && ir.CellAlloc(ld.X) == cell {
+						return true
+					}
+				}
+			}
+		}
+		return false
 	}
 	isErrField := func(v ssa.Value) bool {
 		b, f, ok := ir.FieldLoad(v)
-		if !ok || f != "Error" {
-			return false
-		}
-		if ld, isLd := b.(*ssa.UnOp); isLd && ld.Op == token.MUL {
-			return ir.CellAlloc(ld.X) == sCell
-		}
-		return false
+		return ok && f == "Error" && standsFor(b, sCell, s)
 	}
 	for _, sc := range []struct{ recovered, errSet bool }{{false, true}, {false, false}, {true, true}, {true, false}} {
 		key := fmt.Sprintf("%s:deferred[recovered=%v,Error set=%v]", Q(fn), sc.recovered, sc.errSet)
@@ -587,7 +609,7 @@ func flow3(c *Ctx) {
 				}
 			case "panic":
 				v := ir.Unwrap(e.args[0])
-				if ld, ok := v.(*ssa.UnOp); ok && ir.CellAlloc(ld.X) == pCell {
+				if standsFor(v, pCell, pParam) {
 					got = append(got, "panic(p)")
 				} else if v == ssa.Value(rec) {
 					got = append(got, "panic(recovered)")
